@@ -108,6 +108,9 @@ func (e Engine) execC14(t *testing.T, sc *kernel.Scenario, res *kernel.Result, t
 		vals = append(vals, v)
 		stepOf = append(stepOf, i)
 		res.Count("op."+v.label, 1)
+		if v.cross {
+			res.Count("probe.cross-ledger-allocation", 1)
+		}
 	}
 	if len(vals) == 0 {
 		return
